@@ -88,6 +88,46 @@ def ob_order(h):
     h.check("site_gets_its_own_direct_integration", ("DI", "Site") in log)
 
 
+def ob_utilities_separate(h):
+    """SEPARATE: every zone of the tree gets its OWN copy of the utility ladder -- same levels, in the same order, and no utility object shared
+    between two zones or with the list handed in.  The targeting of one zone writes duties into its utility objects; the sums of C09 / C02 are
+    sums of records only if no two records alias a utility.  (Ownership / frame contract of _set_utilities_for_zone_and_subzones.)"""
+    import OpenPinch.analysis.data_preparation as dp
+    from OpenPinch.classes.stream import Stream
+    from pvc.engine import native
+    kids, gkids = h.choice("tree", _shapes())
+    nh = h.choice("hot_utilities", [1, 2])
+    with native():
+        cfg = Configuration()
+        root = Zone("Site", S, cfg)
+        allz = [root]
+        for i, kt in enumerate(kids):
+            k = Zone(f"K{i}", kt, cfg, parent_zone=root)
+            root.add_zone(k)
+            allz.append(k)
+            for j, gt in enumerate(gkids):
+                g = Zone(f"K{i}G{j}", gt, cfg, parent_zone=k)
+                k.add_zone(g)
+                allz.append(g)
+                if gt == P:
+                    o = Zone(f"K{i}G{j}O", O, cfg, parent_zone=g)
+                    g.add_zone(o)
+                    allz.append(o)
+        hot = [Stream(f"HU{j}", 300.0 - 50 * j, 299.0 - 50 * j, heat_flow=0.0, is_process_stream=False) for j in range(nh)]
+        cold = [Stream("CU", 10.0, 15.0, heat_flow=0.0, is_process_stream=False)]
+        dp._set_utilities_for_zone_and_subzones(root, hot, cold)
+        seen = {id(u): "the list handed in" for u in hot + cold}
+        for z in allz:
+            hu, cu = list(z.hot_utilities), list(z.cold_utilities)
+            h.check("every_zone_gets_the_whole_ladder", [u.t_supply for u in hu] == [u.t_supply for u in hot] and [u.t_supply for u in cu] == [10.0])
+            for u in hu + cu:
+                h.check("no_utility_object_shared_between_zones", id(u) not in seen, note=f"{z.name}.{u.name} is also held by {seen.get(id(u))}")
+                seen[id(u)] = z.name
+        # writing a duty into one zone's utility leaves every other zone's utilities alone
+        list(allz[-1].hot_utilities)[0].set_heat_flow(123.0)
+        h.check("a_duty_written_in_one_zone_is_not_seen_in_another", all(list(z.hot_utilities)[0].heat_flow == 0.0 for z in allz[:-1]) and hot[0].heat_flow == 0.0)
+
+
 SITES = {
     "recovery_possible": [("A", "H1", 250.0, 120.0, 1300.0), ("A", "C1", 40.0, 100.0, 300.0), ("B", "C2", 60.0, 180.0, 1200.0), ("B", "H2", 90.0, 50.0, 200.0)],
     "none_possible": [("A", "H1", 200.0, 100.0, 1000.0), ("B", "C1", 50.0, 150.0, 800.0)],
@@ -109,15 +149,23 @@ def ob_ordering(h):
     from pvc.engine import native
     site = h.choice("site", list(SITES))
     ladder = h.choice("utility_ladder", list(LADDERS))
+    opts = h.choice("options", [{}, {"DO_DIRECT_OPERATION_TARGETING": True}])
     with native():
         prob = {"streams": [dict(zone=z, name=n, t_supply=a, t_target=b, heat_flow=q, dt_cont=5.0, htc=1.0) for z, n, a, b, q in SITES[site]],
                 "utilities": [dict(name=n, type=t, t_supply=a, t_target=b, dt_cont=5.0, price=10.0, htc=1.0, heat_flow=None) for n, t, a, b in LADDERS[ladder]],
-                "options": {}}
+                "options": dict(opts)}
         out = main.pinch_analysis_service(prob, project_name="Site")
-        rec = {t.name: t for t in out.targets}
+        rec = {}
+        for t in out.targets:
+            rec.setdefault(t.name, t)
         di, tp, ts = rec["Site/Direct Integration"], rec["Site/Total Process Target"], rec["Site/Total Site Target"]
         eps = 1e-6 * max(1.0, sum(q for *_, q in SITES[site]))
-        zones = [t for n, t in rec.items() if n.endswith("/Direct Integration") and n != "Site/Direct Integration" and "/" not in n[:-len("/Direct Integration")]]
+        # the records of the top-level zones, picked by the zone labels of the request (unit-operation records carry leaf names such as "O1" that
+        # repeat from zone to zone, so the first record of each name is the top-level one: the service lists a zone before its operations)
+        top = []
+        for z in dict.fromkeys(zl.split("/")[0] for zl, *_ in SITES[site]):
+            top.append(next(t for t in out.targets if t.name == f"{z}/Direct Integration"))
+        zones = top
         if site != "nested_labels":      # (records of nested zones carry the leaf name only: the partition into top-level zones is C09.additive / C09.order)
             h.check("total_process_is_sum_of_top_level_zones", abs(tp.Qh - sum(z.Qh for z in zones)) <= eps and abs(tp.Qc - sum(z.Qc for z in zones)) <= eps)
         h.check("total_site_not_above_the_sum_of_zones", ts.Qh <= tp.Qh + eps and ts.Qc <= tp.Qc + eps)
@@ -146,8 +194,12 @@ def obligations():
     obs.append(Obligation("C09.order.b", ob_order, kind="bounded", bound="every zone tree of the listed shapes up to depth 3 x both operation/process option flags (exhaustive)",
                           functions=[main.get_targets, main._get_site_targets, main._get_process_targets, main._get_unit_operation_targets], max_paths=100000))
     obs.append(Obligation("C09.ordering.b", ob_ordering, kind="smallscope", functions=[main.pinch_analysis_service], max_paths=10000,
-                          bound=f"{len(SITES)} sites (1..3 zones, nested labels) x {len(LADDERS)} utility ladders, real service run natively (exhaustive)",
+                          bound=f"{len(SITES)} sites (1..3 zones, nested labels) x {len(LADDERS)} utility ladders x unit-operation targeting off / on, real service run natively (exhaustive)",
                           doc="ORDER: DI(site) <= TS <= sum of zones on the returned records (the lower bound has no contract in reach: small native scope only)"))
+    import OpenPinch.analysis.data_preparation as dp
+    obs.append(Obligation("C09.utilities_separate.b", ob_utilities_separate, kind="bounded", functions=[dp._set_utilities_for_zone_and_subzones], max_paths=10000,
+                          bound="every zone tree of the listed shapes up to depth 3 x 1..2 hot utility levels (exhaustive, native)",
+                          doc="SEPARATE: no utility object is shared between two zones' records (ownership contract the additive sums rely on)"))
     from . import C03
     obs += _deps(C03, ("C03.utilities_list.b",), "C09.dep.", "utility streams start from zero duty, so zone sums contain assigned duties only")
     return obs
